@@ -36,10 +36,12 @@ func cmpImplSpec(line, g, m string) string {
 	}
 	if g != parts[0] {
 		// a third field, when present, is the model's answer under the other reading the property allows at a point it leaves
-		// open (C12: an optional slice applied to a value that cannot be sliced — error or "no value"; Model/Selector.lean,
-		// `lenient`; `C12_latitude_is_optional_slice_only` says the two readings differ nowhere else)
-		if len(parts) >= 3 && g == parts[2] {
-			return ""
+		// open (C12: an optional slice on a value that cannot be sliced, an optional iterator on a value it cannot
+		// iterate; Model/Selector.lean, `Lat`; `C12_latitude_only_optional_slice_or_iterator` says the readings differ nowhere else)
+		for _, alt := range parts[min(2, len(parts)):] {
+			if g == alt {
+				return ""
+			}
 		}
 		return "go≠model=spec"
 	}
